@@ -16,7 +16,7 @@ def differential(rep, prop, mode, seed, n, tier, replay_cases=None, model_modes=
     cases = vlib.lines(os.path.join(work, "cases.txt"))
     impl = vlib.lines(os.path.join(work, "impl.txt"))
     res = {"work": work, "cases": cases, "impl": impl, "models": {}}
-    for mm in (model_modes or [mode]):
+    for mm in ([mode] if model_modes is None else model_modes):
         out = os.path.join(work, "model-%s.txt" % mm)
         vlib.run_model(mm, os.path.join(work, "cases.txt"), out, timeout=timeout)
         res["models"][mm] = vlib.lines(out)
